@@ -549,6 +549,47 @@ def _verb_table_sites(L, repo, tier, spec):
     return got
 
 
+def r11_measure_result(L):
+    """R11 (the replies to the commands trxcon emits are accepted by trxcon's response parser - MEASURE): in
+    trx_if_measure_rsp_cb() the measurement is handed on (trxcon_phyif_handle_rsp) for EVERY channel number the frequency
+    conversion can return for a valid frequency; only the converter's "no such channel" value 0xffff is refused.  The
+    conditions that dominate the hand-over are folded with the channel number over its valid range boundaries (0 is a
+    valid E-GSM channel) and with the refusal value."""
+    from cfront import TU, CCFG, kids, kind, walk, ctext, calls_to, fold_env
+    tu = TU(L.repo, "trxcon", "src/trx_if.c", L=L)
+    FCc = tu.rel
+    f = tu.func("trx_if_measure_rsp_cb")
+    L.fn(FCc, "trx_if_measure_rsp_cb")
+    outs = calls_to(f, "trxcon_phyif_handle_rsp")
+    L.floor("C05.R11", "hand-over of the MEASURE result to the PHY interface", len(outs), 1)
+    # the variable that receives the converted channel number
+    var = None
+    for n in walk(tu.body(f)):
+        if kind(n) == "BinaryOperator" and n.get("opcode") == "=" and "gsm_freq102arfcn" in ctext(kids(n)[1]):
+            var = ctext(kids(n)[0])
+        if kind(n) == "VarDecl" and kids(n) and "gsm_freq102arfcn" in ctext(kids(n)[-1]):
+            var = n.get("name")
+    if var is None:
+        raise AnalysisError("trx_if_measure_rsp_cb: the converted channel number is not bound to a variable")
+    g = CCFG(tu, f)
+    valid = [0, 1, 124, 125, 128, 251, 259, 293, 306, 340, 438, 511, 512, 885, 955, 974, 975, 1023, 0x8000 | 512, 0x8000 | 810]
+    for c in outs:
+        node = g.node_of(c)
+        conds = [(cn, lab) for cn, lab in g.guards(node) if cn.kind == "cond" and getattr(cn, "cond", None) is not None
+                 and any(kind(x) == "DeclRefExpr" and ctext(x) == var for x in walk(cn.cond))]
+        bad = []
+        for v in valid:
+            for cn, lab in conds:
+                r = fold_env(tu, cn.cond, {var: v})
+                if r is not None and bool(r) != bool(lab):
+                    bad.append("%s = %d is refused by `%s`" % (var, v, ctext(cn.cond)[:50]))
+        L.ob("C05.R11", FCc, "trx_if_measure_rsp_cb", "every valid channel number (0 included) reaches trxcon_phyif_handle_rsp()",
+             "no refusal among %d boundary channel numbers" % len(valid), sorted(set(bad))[:4], not bad, tu.line(c))
+        refused = any((lambda r: r is not None and bool(r) != bool(lab))(fold_env(tu, cn.cond, {var: 0xffff})) for cn, lab in conds)
+        L.ob("C05.R11", FCc, "trx_if_measure_rsp_cb", "the converter's failure value 0xffff does not reach trxcon_phyif_handle_rsp()",
+             "refused", "refused" if refused else "handed on", refused, tu.line(c))
+
+
 def r4_trxcon_sibling(L, repo, got):
     from cfront import TU, kids, kind, strip, calls_to, call_args, ctext, walk, array_extent
     tu = TU(L.repo, "trxcon", "src/trx_if.c", L=L)
@@ -878,9 +919,12 @@ def run(L, tier):
     L.stage(r3_dispatch_returns, L, repo)
     got = L.stage(r4_verb_table, L, repo, tier)
     L.stage(r4_trxcon_sibling, L, repo, got)
+    L.stage(r11_measure_result, L)
     L.stage(r5_effects, L, repo)
     L.stage(r7_none_frame, L, repo)
     from pyutil import memo_sound
     L.stage(memo_sound, L, repo, "C05.R8", ("ctrl_if", "ctrl_if_trx", "data_if", "udp_link"))
     from pyutil import hdr_ver_ownership
     L.stage(hdr_ver_ownership, L, repo, "C05.R9")
+    from cmdfold import sim_cmd_effects
+    L.stage(sim_cmd_effects, L, repo, "C05.R10")
